@@ -16,6 +16,9 @@ Verdicts:  'discharged' / 'refuted' (with model) / 'unknown'.
 Anything the engine cannot execute soundly raises Undecided (never a violation).
 """
 import itertools
+import os
+import subprocess
+import tempfile
 import time
 import z3
 
@@ -23,7 +26,20 @@ Z3_TIMEOUT_MS = 20000
 
 
 class Undecided(BaseException):
-    """The engine cannot decide (unsupported construct, concretisation of a symbol, solver unknown)."""
+    """The engine cannot decide (unsupported construct, concretisation of a symbol, solver unknown).
+    rockit has bare `except:` clauses that would swallow it; every instance therefore registers itself with the
+    current path and the path is reported undecided at its end unless a handler of the ENGINE acknowledged it."""
+
+    def __init__(self, *a):
+        BaseException.__init__(self, *a)
+        c = _CTX[0] if "_CTX" in globals() else None
+        if c is not None:
+            c.raised_undecided.append(self)
+
+    def acknowledge(self):
+        c = _CTX[0]
+        if c is not None and self in c.raised_undecided:
+            c.raised_undecided.remove(self)
 
 
 class PathEnd(BaseException):
@@ -57,6 +73,8 @@ class Ctx:
         self.emissions = None      # ghost NLP log, installed by the casadi model
         self.notes = []
         self.loop_stack = []
+        self.raised_undecided = []
+        self.loop_ctx = []         # innermost verified iteration of a symbolic loop: (tag, index k, {"n": creation counter})
         self.subst = []
 
     # ---- path condition -------------------------------------------------------------
@@ -187,6 +205,9 @@ class Ctx:
             self.solver.pop()
         dt = time.time() - t0
         smt2 = None
+        second = None
+        if r == z3.unsat and os.environ.get("VERIF_TIER") == "thorough":
+            second = _cvc5_second_opinion(self.pc, claim)
         if r == z3.unsat:
             st = "discharged"
         elif r == z3.sat:
@@ -199,8 +220,13 @@ class Ctx:
             s.add(z3.Not(claim))
             smt2 = s.to_smt2()
         ob = Obligation(name, st, model=_model_dict(model), time_s=dt, path=list(self.trace), detail=detail, smt2=smt2)
+        if second is not None:
+            ob.backend = "z3+cvc5:%s" % second
+            if second == "sat":
+                ob.status = "unknown"
+                ob.detail = "z3 says unsat, cvc5 says sat on the same query: solvers disagree"
         self.obligations.append(ob)
-        return st == "discharged"
+        return ob.status == "discharged"
 
     def fail(self, name, detail, model=None):
         """An obligation refuted by construction (e.g. unexpected exception on a feasible path)."""
@@ -215,6 +241,29 @@ class Ctx:
 
     def unknown(self, name, detail=None):
         self.obligations.append(Obligation(name, "unknown", path=list(self.trace), detail=detail))
+
+
+def _cvc5_second_opinion(pc, claim, timeout_ms=15000):
+    """independent re-discharge of one obligation by cvc5 (thorough tier): 'unsat' / 'sat' / 'unknown'"""
+    sol = z3.Solver()
+    sol.add(*pc)
+    sol.add(z3.Not(claim))
+    txt = "(set-logic ALL)\n" + sol.to_smt2()
+    with tempfile.NamedTemporaryFile("w", suffix=".smt2", delete=False) as f:
+        f.write(txt)
+        path = f.name
+    try:
+        p = subprocess.run(["/usr/bin/cvc5", "--tlimit=%d" % timeout_ms, path], capture_output=True, text=True, timeout=timeout_ms / 1000 + 10)
+        out = p.stdout.strip().splitlines()
+        res = out[0] if out else "unknown"
+        return res if res in ("sat", "unsat") else "unknown"
+    except Exception:
+        return "unknown"
+    finally:
+        try:
+            os.remove(path)
+        except OSError:
+            pass
 
 
 def _subterms_consts(t):
@@ -300,6 +349,7 @@ def isolated(fn, label="check"):
             except PathEnd:
                 pass
             except Undecided as e:
+                e.acknowledge()
                 c.unknown("%s:engine-limit" % label, str(e))
         finally:
             _CTX[0] = outer
@@ -324,10 +374,14 @@ def explore(fn, max_paths=4000):
             try:
                 r = fn()
                 res.returns.append((list(c.trace), r))
+                if c.raised_undecided:
+                    res.undecided.append((list(c.trace), "engine limit swallowed by an exception handler of the code under verification: %s" % c.raised_undecided[0]))
             except PathEnd:
-                pass
+                if c.raised_undecided:
+                    res.undecided.append((list(c.trace), "engine limit swallowed by an exception handler of the code under verification: %s" % c.raised_undecided[0]))
             except Undecided as e:
                 import traceback
+                e.acknowledge()
                 fr = [f for f in traceback.extract_tb(e.__traceback__) if "/vc/core.py" not in f.filename]
                 where = " <- ".join("%s:%d(%s)" % (f.filename.split("/")[-1], f.lineno, f.name) for f in reversed(fr[-4:]))
                 res.undecided.append((list(c.trace), "%s [%s]" % (e, where)))
